@@ -57,7 +57,7 @@ PROPS = {
         "title": "Decoding admits attributes after integrity/FINGERPRINT only per the RFC rule",
         "profiles": ["dev"],
         "rule": ("every sequence over {ordinary, MESSAGE-INTEGRITY, MESSAGE-INTEGRITY-SHA256, FINGERPRINT} up to the "
-                 "exhaustive length (quick 7 = 21,844 sequences, thorough 8 = 87,380 sequences) plus sampled longer ones; wire bytes built "
+                 "exhaustive length (quick 7 = 21,844 sequences, thorough 9 = 349,524 sequences, i.e. beyond the 87,380 of length <= 8) plus sampled longer ones; wire bytes built "
                  "by the reference (unique SOFTWARE serial per ordinary attribute, MAC/CRC per RFC at that position); "
                  "variants: all checksums right, every/each inadmissible one wrong, each admitted one wrong; decoded "
                  "under all 16 option combinations and the context-less decoder; oracle = the four-line admission rule "
@@ -245,7 +245,7 @@ PROPS = {
         "title": "Untrusted bytes never crash the decoder, the client or the reassembler",
         "profiles": ["dev", "release"],
         "thorough_profiles": ["asan", "miri", "fuzz"],
-        "fuzz_seconds": 180,
+        "fuzz_seconds": 300,
         "scale": {"asan": 0.25, "miri": 0.003},
         "crash_is_violation": True,
         "cpu_stall_limit": 60,
